@@ -67,3 +67,45 @@ Proof.
     apply (echo_chunks_nonempty (code_lines (list tok) echo c)). unfold echo_source. rewrite EL. reflexivity.
   - exists l1. exact H1.
 Qed.
+
+(* The writer's sanity pass re-lexes the echo writer's own lines: it succeeds whenever no newline token is a
+   lone carriage return (always so for sources of the reference dialect: EchoStable.dialect_no_lone_cr). *)
+Lemma sanity_relex ls ts : Forall ends_lf (removelast ls) -> model_lex ls = Ok ts -> no_lone_cr_newline ts ->
+  exists l0, model_lex (echo ts) = Ok l0.
+Proof.
+  intros HF HL Hn.
+  assert (E : echo_source ls = Ok (echo ts)) by (unfold echo_source; rewrite HL; reflexivity).
+  destruct (echo_idempotent ls _ HF E (echo ts) eq_refl (echo_chunks_end_lf ls ts HL Hn)) as (lines' & X & _).
+  unfold echo_source in X. destruct (model_lex (echo ts)) as [l0|e]; [exists l0; reflexivity | discriminate].
+Qed.
+
+Theorem p8_roundtrip_lexer_full (c : lex_cart) :
+  wf_cart (list tok) echo c -> from_lexer c -> no_lone_cr_newline (c_lua c) ->
+  code_in_format (concat (echo (c_lua c))) = true ->
+  exists file l',
+    lex_write c = Ok file /\
+    lex_read file = Ok (norm_cart (list tok) c l') /\
+    concat (echo l') = supply_nl (concat (echo (c_lua c))) /\
+    (no_lone_cr_newline l' -> lex_write (norm_cart (list tok) c l') = Ok file).
+Proof.
+  intros W FL Hn Hf. pose proof FL as (ls0 & HF0 & HL0).
+  destruct (sanity_relex ls0 (c_lua c) HF0 HL0 Hn) as (l0 & Hs).
+  destruct (p8_roundtrip_lexer c l0 W FL Hs Hf) as (file & l' & A & B & C & D).
+  exists file, l'. split; [exact A|]. split; [exact B|]. split; [exact C|].
+  intros Hn'.
+  (* l' was lexed from the lines of the written text *)
+  unfold lex_read in B.
+  pose proof W as (_ & _ & _ & _ & _ & _ & _ & _ & _ & _ & _ & _ & Hch).
+  destruct (code_lines_facts (list tok) echo c Hch) as (FN & CC & _).
+  assert (HF' : Forall ends_lf (removelast (code_lines (list tok) echo c))).
+  { apply Forall_removelast. eapply Forall_impl; [|exact FN]. intros a Ha. apply nl_line_ends_lf. exact Ha. }
+  assert (E0 : echo_source ls0 = Ok (echo (c_lua c))) by (unfold echo_source; rewrite HL0; reflexivity).
+  assert (He : ended_flag (echo (c_lua c)) = ends_with_nl (code_text (list tok) echo c)).
+  { apply ended_flag_text. apply last_nonempty. apply (echo_chunks_nonempty ls0). exact E0. }
+  destruct (p8_roundtrip (list tok) model_lex echo [] c l0 W Hs He Hf) as (file2 & Wf & _ & Rf).
+  unfold lex_write in A. rewrite Wf in A. injection A as <-.
+  rewrite Rf in B. destruct (model_lex (code_lines (list tok) echo c)) as [l2|e] eqn:EL; [|discriminate].
+  cbn [bind] in B. injection B as B.
+  subst l2.
+  destruct (sanity_relex _ l' HF' EL Hn') as (l1 & H1). exact (D l1 H1).
+Qed.
